@@ -172,6 +172,7 @@ struct Env {
     /// send mode: the header the model expects (fixed dummy addresses of the socket's family)
     canon_hdr: Vec<u8>,
     front_sent: Vec<u8>,
+    peer_saw_fin: bool,
 }
 
 fn rd(r: &Readiness) -> (Tok, Tok) {
@@ -459,7 +460,7 @@ impl Env {
             back_sock, peer: Some(ub), dupfd,
             back_written: vec![], back_got: vec![], back_got_reported: 0, front_out_reported: 0,
             junk: 0, blocked: false, peer_eof: false, peer_closed: false, front_eof: false,
-            close_cause_error: false, mode: mode.to_string(), canon_hdr, front_sent: vec![],
+            close_cause_error: false, mode: mode.to_string(), canon_hdr, front_sent: vec![], peer_saw_fin: false,
         }
     }
 
@@ -490,7 +491,10 @@ impl Env {
             let mut buf = [0u8; 65536];
             loop {
                 match p.read(&mut buf) {
-                    Ok(0) => break,
+                    Ok(0) => {
+                        self.peer_saw_fin = true;
+                        break;
+                    }
                     Ok(n) => self.back_got.extend_from_slice(&buf[..n]),
                     Err(_) => break,
                 }
@@ -743,6 +747,9 @@ impl Env {
             Sess::Pipe(p) => t.push(tbool(p.check_connections())),
             _ => t.push(tn(0)),
         }
+        // has the backend peer seen the end of the client's stream (FIN passed on)?
+        self.drain_peer();
+        t.push(tbool(matches!(self.sess, Sess::Pipe(_)) && self.peer_saw_fin && self.peer.is_some() && !self.blocked));
         match &self.sess {
             Sess::Expect(p) => t.extend(addr_toks(&p.addresses)),
             Sess::Relay(p) => t.extend(addr_toks(&p.addresses)),
@@ -1032,6 +1039,14 @@ fn run(case: &Case, out: &mut Out) {
                 }
                 out.obs(&[]);
             }
+            "bsndbuf" => {
+                // minimal kernel send buffer on the session's backend socket: larger writes are accepted in part
+                let v: libc::c_int = 1;
+                unsafe {
+                    libc::setsockopt(e.dupfd, libc::SOL_SOCKET, libc::SO_SNDBUF, &v as *const _ as *const libc::c_void, std::mem::size_of::<libc::c_int>() as u32);
+                }
+                out.obs(&[]);
+            }
             "connected" => {
                 // connect_to_backend + the promotion to Connected of ready_inner
                 if let Some(b) = e.back_sock.take() {
@@ -1113,7 +1128,7 @@ fn run(case: &Case, out: &mut Out) {
                     }
                 }
             }
-            "h" | "ready" | "upgrade" => {
+            "h" | "ready" | "upgrade" | "bwp" => {
                 if closed_before {
                     out.obs(&[ts("closed")]);
                     continue;
@@ -1122,6 +1137,10 @@ fn run(case: &Case, out: &mut Out) {
                     e.ready(out)
                 } else if name == "upgrade" {
                     if e.upgrade() { SessionResult::Continue } else { SessionResult::Close }
+                } else if name == "bwp" {
+                    // back_writable against the kernel's own (small) send buffer: how much it takes is read off
+                    // the peer afterwards and handed to the model (props/c18.py:model_ops)
+                    e.back_writable(out)
                 } else {
                     match a[0].s() {
                         "readable" => e.readable(),
